@@ -1,11 +1,11 @@
 package an
 
 import (
-	"sort"
 	"fmt"
 	"go/token"
 	"go/types"
 	"math"
+	"sort"
 	"strings"
 
 	"golang.org/x/tools/go/ssa"
@@ -235,8 +235,8 @@ type gateSpec struct {
 	sentinel string
 	// allowLateFail: exits with a non-nil error that only accepted sizes reach (the read-failure exit)
 	allowLateFail bool
-	strResult     bool   // first result is a string that must be "" on reject exits
-	kind          string // context kind of the subject: "L", "W" or "N"
+	strResult     bool          // first result is a string that must be "" on reject exits
+	kind          string        // context kind of the subject: "L", "W" or "N"
 	entry         *ssa.Function // function to evaluate for feasibility questions (default fn)
 }
 
